@@ -121,16 +121,25 @@ func init() {
 			"directed prefix: fault kind x position x n x placement x issuer configured or not; distinct = shape hash (fault, position, n, placement, issuer-configured, layout, outcome class)",
 		Directed:   c03Directed,
 		Run:        c03Run,
-		MustHit:    []string{"nonconforming_idp", "misroute", "delay_past_expiry", "position>0", "place=R", "place=A", "place=RA", "place=none", "issuer_unconfigured", "redelivery_after_change"},
+		MustHit:    []string{"nonconforming_idp", "misroute", "delay_past_expiry", "position>0", "place=R", "place=A", "place=RA", "place=none", "issuer_unconfigured", "redelivery_after_change", "encrypted_only_with_checking_off", "assertions_encrypted"},
 		RandomRuns: map[string]int{"quick": 8000, "thorough": 60000},
 		Assumptions: []string{"error identity is compared by Go type and by the SAML element/attribute name it carries, never by message text",
 			"a fault is injected alone; with several simultaneous violations any of the corresponding errors is allowed"},
 	})
 }
 
-// draw order: fault, n, pos, place, issuerCfg
+// draw order: fault, n, pos, place, issuerCfg, encrypted
 func c03Directed(tier string) [][]uint64 {
 	var out [][]uint64
+	// every assertion travels encrypted (with checking off the SP never decrypts: nothing is left to accept)
+	for f := uint64(0); f < uint64(len(c03Faults)); f++ {
+		for place := uint64(0); place < 4; place++ {
+			if tier == "quick" && (f+place)%3 != 0 && f != 0 {
+				continue
+			}
+			out = append(out, []uint64{f, f % 2, 0, place, 0, 1})
+		}
+	}
 	for f := uint64(0); f < uint64(len(c03Faults)); f++ {
 		for n := uint64(0); n < 3; n++ {
 			for pos := uint64(0); pos <= n; pos++ {
@@ -158,12 +167,19 @@ func c03Run(r *core.Run) {
 	pos := t.Int(n, "c03.pos")
 	place := t.Int(4, "c03.place")
 	issuerCfg := t.Int(2, "c03.issuercfg") == 0
+	encrypted := t.Int(6, "c03.enc") == 1
 	fault := c03Faults[fi]
 
 	s := NewStd(r)
 	s.DrawLive()
 	s.DrawClockKnobs()
 	s.Cfg.SkipSig = place == PlaceNone
+	spKey := 4
+	spCert := world.MintCert(spKey, s.Epoch.Add(-40*24*time.Hour), s.Epoch.Add(800*24*time.Hour), 1)
+	if encrypted {
+		s.Cfg.EncStyle, s.Cfg.EncKeyIdx, s.Cfg.EncCert = world.KeyField, spKey, spCert
+		r.Fault("assertions_encrypted")
+	}
 	if !issuerCfg {
 		s.Cfg.IdPIssuer = ""
 		r.Probe("issuer_unconfigured")
@@ -184,7 +200,8 @@ func c03Run(r *core.Run) {
 		m.Destination = strp(fed.ACS)
 	}
 	a := m.Assertions[pos]
-	wrongIssuer := "https://evil-idp.example/meta"
+	goodIssuer := s.Fed.IdPIssuer
+	wrongIssuer := []string{"https://evil-idp.example/meta", " " + goodIssuer, goodIssuer + " ", "\n\t" + goodIssuer + "\n", goodIssuer + "/", strings.ToUpper(goodIssuer), goodIssuer + "\u00a0", "x" + goodIssuer}[t.Int(8, "c03.issuer")]
 	switch fault {
 	case "version-wrong":
 		m.Version = []string{"1.1", "2.00", "2", "3.0"}[t.Int(4, "c03.version")]
@@ -238,6 +255,14 @@ func c03Run(r *core.Run) {
 	}
 	r.Probe("place=" + placeNames[place])
 	s.ApplyPlacement(m, place, t.Chance(800, "c03.plainsig"))
+	if encrypted {
+		for _, x := range m.Assertions {
+			x.Encrypt = world.DrawEncOpts(t, &world.Key(spKey).RSA.PublicKey, spCert.DER)
+			if x.Sign != nil {
+				x.Sign.ExclusiveOnly()
+			}
+		}
+	}
 	lay := world.DrawLayout(t)
 	xml, err := s.IdP.Issue(m, lay, r.Sim.Now())
 	if err != nil {
@@ -338,6 +363,21 @@ func c03Run(r *core.Run) {
 	if !issuerCfg && (fault == "resp-issuer-wrong" || fault == "a-issuer-wrong") {
 		violates = false // any issuer is fine when none is configured
 	}
+	expect := c03Expect(fault)
+	if encrypted && place == PlaceNone && len(m.Assertions) > 0 {
+		// with checking off nothing is decrypted: no assertion is available, whatever else is wrong
+		// with the (invisible) assertions; Response-level faults keep their own error
+		r.Probe("encrypted_only_with_checking_off")
+		if !violates || strings.HasPrefix(fault, "a-") || fault == "delay-past-expiry" || fault == "misroute-other-sp" {
+			violates = true
+			expect = []errSpec{{"missing", []string{"assertion"}}}
+			if fault == "misroute-other-sp" {
+				expect = append(expect, errSpec{"invalid", []string{"destination"}})
+			}
+		} else {
+			expect = append(expect, errSpec{"missing", []string{"assertion"}})
+		}
+	}
 	if !violates {
 		if !out.OK() {
 			ctx["err"] = fmt.Sprint(out.Err)
@@ -349,7 +389,7 @@ func c03Run(r *core.Run) {
 		r.Fail("reject", "C03/fault-accepted/"+fault, ctx)
 		return
 	}
-	if !errMatches(out.Err, c03Expect(fault)) {
+	if !errMatches(out.Err, expect) {
 		ctx["err"] = fmt.Sprint(out.Err)
 		ctx["class"] = world.ErrClass(out.Err)
 		r.Fail("typed-error", "C03/wrong-error/"+fault+"/"+world.ErrClass(out.Err), ctx)
